@@ -401,7 +401,7 @@ theorem concat_inv (d0 : Db) (rest : List Db) (d : Db) (hi : ∀ d ∈ d0 :: res
   obtain ⟨h1, h2, h3, h4, _⟩ := concat_ok_rows d0 rest d h
   rw [C05.inv_some h1]
   generalize d0 :: rest = dbs at *
-  refine ⟨?_, ?_, h3, ?_, ?_⟩
+  refine ⟨?_, ?_, h3, ?_⟩
   · rw [h2]; exact concat_names_length dbs hi
   · intro c hc
     rw [h4] at hc
@@ -410,23 +410,6 @@ theorem concat_inv (d0 : Db) (rest : List Db) (d : Db) (hi : ∀ d ∈ d0 :: res
     rename_i hcon
     exact hcols ⟨k, hk, hcon⟩
   · rw [h4]; simpa [List.map_map, Function.comp_def] using concatKeys_nodup dbs
-  · intro hr
-    rw [h4]
-    have : concatKeys dbs = [] := by
-      rw [List.eq_nil_iff_forall_not_mem]
-      intro k hk
-      obtain ⟨x, hx, hkx⟩ := (mem_concatKeys dbs k).1 hk
-      cases ha : x.array with
-      | none => exact hnone ⟨x, hx, ha⟩
-      | some a =>
-        have ha0 : a = [] := by
-          have : x.array.getD [] = [] := by
-            unfold concatRows at hr
-            exact List.flatMap_eq_nil_iff.1 hr x hx
-          simpa [ha] using this
-        have := ((C05.inv_some ha).1 (hi x hx)).2.2.2.2 ha0
-        simp [this] at hkx
-    simp [this]
 
 /-- non-vacuity of `concat_refuses` (both directions): two compatible one-row databases are
 concatenated, rows and names in order; a database of another level, or a fresh database without
